@@ -46,5 +46,17 @@ out = ['# Real-loop cross-check of virtual witnesses', '',
        '| finding / defect | tree | witness | result |', '|---|---|---|---|']
 for r in rows:
     out.append('| ' + ' | '.join(x.replace('|', '/') for x in r) + ' |')
+out += ['', 'Notes on the rows that do not AGREE:', '',
+        '* D28: the defect needs the early-exit cancellation of a one-of branch to land while the node is suspended inside its',
+        '  `on_node_complete` callback, in the same loop iteration in which the callback gate would have been released; the',
+        '  approximate real replay (4 ms settling time between deliveries) does not hit that window.',
+        '* KF-REC2 (residual hang): which of the two scopes drives the failing re-iteration is decided by the order of two',
+        '  callbacks inside ONE loop iteration; the scripted replay reproduces the order of completions, not the order of',
+        '  ready callbacks within an iteration, and on the real loop the main scope won (the run fails with the node error',
+        '  instead of hanging). The virtual witness replays deterministically (`./check replay witnesses/KF-REC2.json`).',
+        '* KF-POOLWINDOW: the real replay uses unbounded pools and no cancellation, so the window cannot occur there; the',
+        '  mechanism is argued from CPython (`Task.cancel` -> `_fut_waiter.cancel()` -> `_call_check_cancel` via `call_soon`).',
+        '* Witnesses of sequence / overlap / store-on-disk / build-time / real-pool defects are not single virtual runs and',
+        '  are listed as not applicable. Every other witness, including every deadlock, reproduces on the real loop.']
 open(os.path.join(VERIF, 'witnesses', 'REAL_LOOP_CROSSCHECK.md'), 'w').write('\n'.join(out) + '\n')
 print('\n'.join(out[-len(rows):]))
